@@ -241,6 +241,19 @@ int run_case(Rig& r, const Gen& gen, Rng& g, u64 c, Ctx& ctx, std::string& desc,
             o.random_ints = g.chance(1, 2);
             CaseState s = RandomState(g, o);
             s["pc"] = regs.pc;
+            if (s["lp"] && g.chance(1, 2)) {
+                // an active loop nest whose block ends are actually reached: the innermost (sometimes every) frame ends on
+                // one of the next few words, starts nearby, and has a small remaining count (also 0: last iteration)
+                unsigned depth = (unsigned)s["bcn"];
+                for (unsigned f = depth; f-- > 0;) {
+                    if (f + 1 != depth && !g.chance(1, 3))
+                        continue;
+                    u64 pc = s["pc"];
+                    s[fmt("bkrep_stack[%u].end", f).c_str()] = (pc + g.below(6)) & 0x3FFFF;
+                    s[fmt("bkrep_stack[%u].start", f).c_str()] = g.chance(1, 2) ? pc : ((pc + 0x3FFFC + g.below(8)) & 0x3FFFF);
+                    s[fmt("bkrep_stack[%u].lc", f).c_str()] = g.chance(2, 3) ? g.below(3) : g.bits(16);
+                }
+            }
             if (g.chance(1, 5))
                 s["pc"] = g.chance(1, 2) ? 0x3FFF0 + g.below(16) : g.below(8);
             if (g.chance(1, 8))
@@ -317,6 +330,22 @@ int run_case(Rig& r, const Gen& gen, Rng& g, u64 c, Ctx& ctx, std::string& desc,
             t.MMIOWrite(0x1BE, chan);
             u16 srcl = (u16)g.bits(16), dstl = (u16)g.bits(16);
             u16 srch = g.chance(2, 3) ? (u16)g.below(2) : interesting(g), dsth = g.chance(2, 3) ? (u16)g.below(2) : interesting(g);
+            // addresses whose DERIVED quantities sit at a boundary: data-area base + address (+ a few elements) just below
+            // 2^32, just below/above the end of the array counted in words (0x40000) or in bytes (0x80000), the bank border
+            auto derived_edge = [&]() -> u32 {
+                static const u64 borders[] = {1ull << 32, 1ull << 32, 0x40000, 0x80000, 0x20000, 0x30000, 0x10000};
+                u64 B = g.pick(borders);
+                u64 base = g.chance(2, 3) ? 0x20000 : 0;
+                return (u32)(B - base - g.below(g.chance(1, 2) ? 24 : 160) + g.below(4));
+            };
+            if (g.chance(1, 4)) {
+                u32 a = derived_edge();
+                srcl = (u16)a, srch = (u16)(a >> 16);
+            }
+            if (g.chance(1, 4)) {
+                u32 a = derived_edge();
+                dstl = (u16)a, dsth = (u16)(a >> 16);
+            }
             t.MMIOWrite(0x1C0, srcl);
             t.MMIOWrite(0x1C2, srch);
             t.MMIOWrite(0x1C4, dstl);
@@ -346,6 +375,15 @@ int run_case(Rig& r, const Gen& gen, Rng& g, u64 c, Ctx& ctx, std::string& desc,
             spaces = (u16)(g.pick(sp) | (g.pick(sp) << 4) | (g.chance(1, 3) ? 0x400 : 0));
             if (g.chance(1, 8))
                 spaces = (u16)g.bits(16);
+            if (g.chance(1, 3)) {
+                // the configuration real programs use most: a plain contiguous block copy (unit steps on the inner dimension,
+                // DSP memory on at least one side, word or double-word elements)
+                static const u16 plain[] = {0x00, 0x00, 0x70, 0x07};
+                bool dw = g.chance(1, 4);
+                spaces = (u16)(g.pick(plain) | (dw ? 0x400 : 0));
+                t.MMIOWrite(0x1CE, dw ? 2 : 1);
+                t.MMIOWrite(0x1D0, dw ? 2 : 1);
+            }
             t.MMIOWrite(0x1DA, spaces);
             t.MMIOWrite(0x1DC, (u16)g.bits(16));
             desc = fmt("dma chan=%04x src=%04x%04x dst=%04x%04x size=%x/%x/%x spaces=%04x", chan, srch, srcl, dsth, dstl, s0, s1, s2, spaces);
